@@ -7,6 +7,10 @@ TRUST = 'Trusts rustc nightly MIR/const-eval for the ska crate (same source and 
 CLAIMS = {
  'C01': ('other', 'Structural necessary conditions of exact k-mer enumeration, each decided for all inputs of its finite/affine domain: every end-of-record guard of SplitKmer::build/roll_fwd is tight against the bounds checks it protects (a window ending at the record end is kept, no read out of bounds), on a grid complete for unit-coefficient affine comparisons; all SplitKmer::new call sites pass seq()/num_bases() of one record; get_curr_kmer picks the lower orientation with its own middle base; add_to_dict / add_palindrome_to_dict decision tables equal the IUPAC union; the first-k-mer and loop blocks of add_file_kmers apply the same 16-row predicate. Packing/rolling/decoding exactness is C16; table contents are C15. The end-to-end statement over all record sets additionally relies on the trusted FASTA parser.',
          'static analysis: predicate extraction + tightness check of guards vs. MIR bounds assertions, finite-domain abstract interpretation, sibling-block truth tables'),
+ 'C04': ('other', 'Decides the clauses visible in code shape: reference bytes reach the alignment and the VCF comparison only upper-cased (container-level taint from SequenceRecord::seq() with to_ascii_uppercase sanitizers); all three prefix-sum accumulators of contig lengths advance their index by exactly one per addition; RefKmer fields come from one k-mer tuple with pos = get_middle_pos() and the strand-correction closure is RC_IUPAC iff rc (C15.use:map); stored middle base is N iff is_ambiguous && mask_ambig; finalise order contigs -> middle bases -> repeat mask under != gap; no crate call passes same-typed named flags swapped (141 call sites); output length = sum of contig lengths per mapped sample. The incremental writer gap geometry (next_pos/last_mapped/last_written for arbitrary gaps) needs relational integer invariants outside these domains and is NOT decided.',
+         'static analysis: taint with sanitizers, accumulator/index discipline, provenance, path-condition truth tables over MIR'),
+ 'C05': ('other', 'Decides the conversion structure: genotype decision table ("0" iff mapped == ref, "." iff gap, else 1-based ALT index) extracted from switch edges; `variant` set exactly on the non-reference paths and write_record gated by it; u8_to_base over all 256 bytes; POS = map_pos+1, CHROM = chrom_names[map_chrom], REF = seq[map_chrom][map_pos]; header order; IdxCheck maps the concatenated index to (contig, offset) for all contig-length vectors with <=3 contigs of length 1..3; reference case normalisation (shared with C04). noodles_vcf output formatting is trusted.',
+         'static analysis: predicate extraction, finite-domain abstract interpretation, provenance over MIR'),
  'C08': ('other', 'Structural necessary conditions of delete on every path: the names-file reader accepts a one-name line; both refusals of delete_samples diverge and dominate the replacement of the table, and generic_modes::delete reaches save only through delete_samples (refused => file untouched); update_counts(false) on every path from the column removal to return; a name is dropped iff its column index is recorded and a column is skipped iff its index equals the next recorded one. Order preservation of ndarray::push_column is trusted.',
          'static analysis: MIR dominance / must-pass-through / decision-edge rules'),
  'C09': ('other', 'Structural necessary conditions decided on every path: the deserialiser rejects a stored width != IntT::n_bits() before any Ok return; the u64/u128 branches of all ten dispatching arms of main are call-for-call siblings with provenance-identical arguments and diverge when both widths fail; Build/Cov pick u64 iff k<=31 and all four k validators accept exactly odd 5..=63. Round-trip fidelity of CBOR/snappy is library behaviour and is not decided.',
